@@ -15,7 +15,7 @@ RULE = ("Hypothesis-generated histories of 1-4 reaction steps (cellgen.py): each
         "(ideal, binary Guggenheim), KINETICS (5 rate laws with -formula, Runge-Kutta), newly defined or carried over through "
         "SAVE/COPY, INCREMENTAL_REACTIONS on/off, batch or RUN_CELLS, optional REACTION_TEMPERATURE; phreeqc.dat, wateq4f.dat, "
         "pitzer.dat. Inventories before/after are computed from DUMP text with formulas from the database text; every element "
-        "(incl. H, O) and the net charge must close to 1e-6 of the system inventory (floor 1e-12 mol), and no phase / gas / "
+        "(incl. H, O) and the net charge must close to 1e-6 of the system inventory (floor 1e-12 mol) + 1e-14 mol (10 x KNOBS -tolerance), and no phase / gas / "
         "exchanger / kinetic amount may be negative. Non-trivial = a step with >=2 reactant kinds besides the solution in which "
         ">=1 element moved between reservoirs by >1e-9 mol; distinct by SHA-256 of the case")
 ASSUMPTIONS = ["DUMP -all writes every stored reactant with >=14 significant digits (format precision 1e-14 << 1e-6)",
@@ -26,6 +26,8 @@ ASSUMPTIONS = ["DUMP -all writes every stored reactant with >=14 significant dig
                "charge scale for the relative tolerance = total moles of non-H/O elements in the cell (proxy for the ionic equivalents)",
                "element inventories below 1e-12 mol are compared with an absolute 1e-18 mol: the engine represents zero by "
                "1e-25..1e-27 mol and accepts mass-balance residuals of sqrt(moles x 1e-25)",
+               "absolute term 1e-14 mol in the element tolerance = 10 x KNOBS -tolerance (default 1e-15: 'all numbers smaller than this "
+               "number are treated as zero' by the optimizing solver; DESIGN 4.2)",
                "'negative' reactant amount = below -1e-12 mol (a phase that dissolves completely beside a 10 mol phase is stored "
                "with minus one unit of rounding of the larger amount, -1.8e-15 mol)",
                "excluded by construction (counted in classes): KNOBS -iterations > 100 for cells with SOLID_SOLUTIONS + fixed-volume "
@@ -34,7 +36,7 @@ ASSUMPTIONS = ["DUMP -all writes every stored reactant with >=14 significant dig
                "sharing a solid-solution name (known finding: the second is solved with the phases of the first), steps with a solid "
                "solution that converge only in the engine's retry 'Adding inequality to make concentrations greater than zero' "
                "(known finding: mass leaks; recognised by that warning text after the run), element discrepancies <= 1.5e-8 mol that close when the case is re-run with other KNOBS "
-               "-step_size/-pe_step_size (known finding: inventories rounded after 1e5..1e7 mol Newton excursions; inputs use "
+               "solver settings (cellgen.KNOBS_VARIANTS; known finding: inventories rounded after 1e5..1e7 mol Newton excursions; inputs use "
                "-step_size 10 -pe_step_size 5), MIX with a negative fraction removing > 30 % of the water (known finding: intensive "
                "properties weighted wrongly, NaN results), O2(g) as pure phase together with O2(g) in the gas phase (known finding: Ba deficit), "
                "calls that do not return within 150 s (each case runs in a forked child; by-product "
@@ -46,7 +48,7 @@ LEVEL_TEXT = ("Exploration: thousands of generated cell histories per run; for e
               "charge are summed over all reservoirs of the before- and after-dumps and compared to 1e-6 relative; no amount negative.")
 FLOORS = {"quick": 200, "thorough": 3000}
 SHARDS = {"quick": 8, "thorough": 16}
-BUDGET = {"quick": 110, "thorough": 1600, "replay": 1}
+BUDGET = {"quick": 110, "thorough": 1300, "replay": 1}
 DBS = {"quick": ("phreeqc.dat", "phreeqc.dat", "phreeqc.dat", "wateq4f.dat", "pitzer.dat"),
        "thorough": ("phreeqc.dat", "phreeqc.dat", "wateq4f.dat", "pitzer.dat")}
 
@@ -60,6 +62,12 @@ RTOL = 1e-6
 FLOOR = 1e-12
 MOVED = 1e-9
 NEG_TOL = 1e-12
+# DESIGN 4.2: "|delta| <= tol_property x scale + 10 x the solver's own documented tolerance".  KNOBS -tolerance (default 1e-15,
+# not changed by the generated inputs) is the number below which the optimizing solver cl1 treats a quantity as zero
+# (manual 1999, KNOBS: "All numbers smaller than this number are treated as zero"); mass-balance rows are solved to that
+# absolute accuracy in moles.  Seen in the thorough tier: a solution holding 2.5e-10 mol Fe re-equilibrated with Hematite
+# (0 mol, nothing precipitates) comes back with 4.0e-16 mol Fe less, with every step-size setting.
+ABS_SOLVER = 1e-14
 NEG_CONC_RETRY = "Adding inequality to make concentrations greater than zero"
 
 
@@ -125,7 +133,7 @@ def check_step(info, D0, D1, phases):
         x, a = expect.get(e, 0.0), after.get(e, 0.0)
         s = max(scale.get(e, 0.0), abs(x), FLOOR)
         err = abs(a - x)
-        if not (err <= RTOL * s):
+        if not (err <= RTOL * s + ABS_SOLVER):
             raise Violation("element_balance", "cell %d element %s: after %.15g, expected %.15g (before %.15g + reaction %.6g), "
                             "difference %.3e = %.3e of the system inventory %.6g" %
                             (info["cell"], e, a, x, before.get(e, 0.0), x - before.get(e, 0.0), a - x, err / s, s),
@@ -240,8 +248,7 @@ class _Quiet(object):
 
 
 EXCURSION_ABS = 1.5e-8      # unit of rounding of 1e8 mol, the largest pure-phase delta reset() lets through
-ALT_STEP_SIZES = ([100, 10], [3, 2])
-PATH_EXCUSE = "excluded_trigger:discrepancy_below_1.5e-8mol_that_closes_with_another_newton_step_size"
+PATH_EXCUSE = "excluded_trigger:discrepancy_below_1.5e-8mol_that_closes_with_other_solver_settings"
 
 
 def check_case(case, ctx):
@@ -250,7 +257,9 @@ def check_case(case, ctx):
     rounding (1e-12..1e-8 mol, either sign).  It happens with every step-size setting, for about 1 generated case in 5000,
     and nothing in the input or in the warnings announces it.  The only observable handle: the discrepancy belongs to the
     Newton path, not to the bookkeeping.  An element_balance discrepancy of at most EXCURSION_ABS mol is therefore
-    re-examined with other documented step sizes (KNOBS -step_size / -pe_step_size); if the same steps then complete and
+    re-examined with other documented solver settings (cellgen.KNOBS_VARIANTS: step sizes, -delay_mass_water, -tolerance,
+    -diagonal_scale; an excursion through a pure-phase column is not always damped by the step size: Chalcedony went to
+    2e7 mol and back with all four step-size pairs); if with one of them the same steps complete and
     every inventory closes, the case is excluded (counted); if it persists, or the second run cannot complete the step,
     the violation stands.  The same holds for a reactant stored with a negative amount of at most EXCURSION_ABS mol (seen:
     1 mol of Mirabilite dissolves completely and is saved with -5.8e-11 mol, the unit of rounding of 4e5 mol; closes with
@@ -261,12 +270,12 @@ def check_case(case, ctx):
         d = v.detail if isinstance(v.detail, dict) else None
         if v.oracle not in ("element_balance", "negative_amount") or d is None or not (d["abs"] <= EXCURSION_ABS):
             raise
-        if case.get("knobs_default_step_size") or case.get("knobs_step_size"):
+        if case.get("knobs_default_step_size") or case.get("knobs_variant") is not None:
             raise
         need = d["cell"] // 10          # number of steps that must complete in the second run
-        for alt in ALT_STEP_SIZES:
+        for alt in range(len(G.KNOBS_VARIANTS)):
             c2 = dict(case)
-            c2["knobs_step_size"] = alt
+            c2["knobs_variant"] = alt
             try:
                 r2 = _guarded(c2, _Quiet(ctx))
             except (Violation, Discard):
